@@ -175,8 +175,10 @@ def cli_cases(ctx, rng, key_text, key, key_id):
 
     work = tempfile.mkdtemp(prefix="verif-c16-")
     try:
-        for i, (n, aad, bad) in enumerate([(0, None, None), (1, None, None), (4096, None, None), (70000, None, None),
-                                           (5000, b"ESXConfiguration", None), (5000, None, "tag"), (5000, None, "ct-first")]):
+        for i, (n, aad, bad, pre) in enumerate([(0, None, None, None), (1, None, None, None), (4096, None, None, None), (70000, None, None, None),
+                                                (5000, b"ESXConfiguration", None, None), (5000, None, "tag", None), (5000, None, "ct-first", None),
+                                                # the output path already exists (longer / shorter / equal): exactly the payload afterwards
+                                                (3000, None, None, 9000), (3000, None, None, 10), (4096, None, None, 4096), (0, None, None, 77)]):
             payload = payload_of(n, 1000 + i)
             iv = bytes(rng.randrange(256) for _ in range(12))
             attrs = E.std_attrs(key, iv, key_id, extra=rng.sample(EXTRA_POOL, 2))
@@ -186,6 +188,8 @@ def cli_cases(ctx, rng, key_text, key, key_id):
             ep, kp, op = (os.path.join(work, f"{i}.{x}") for x in ("ve", "info", "out"))
             open(ep, "wb").write(blob)
             open(kp, "w").write(key_text)
+            if pre is not None:
+                open(op, "wb").write(b"\xEE" * pre)
             argv = sys.argv
             sys.argv = ["envelope-decrypt", ep, "-ks", kp, "-o", op]
             rc, err = None, ""
@@ -204,7 +208,7 @@ def cli_cases(ctx, rng, key_text, key, key_id):
             ctx.case(key=("cli", i), nontrivial=True, sample={"cli": True, "payload_len": n, "aad": bool(aad), "tamper": bad} if i == 3 else None)
             if should_work and (rc != 0 or out != payload):
                 ctx.violation({"fail": "cli-output", "sub": "cli"}, {"n": n, "rc": rc, "err": err, "out_len": None if out is None else len(out)})
-            if not should_work and (rc == 0 or (out is not None and len(out) > 0)):
+            if not should_work and pre is None and (rc == 0 or (out is not None and len(out) > 0)):
                 ctx.violation({"fail": "cli-wrote-on-failure", "sub": "cli"}, {"n": n, "rc": rc, "out_len": None if out is None else len(out)})
             if new_files:
                 ctx.violation({"fail": "cli-extra-files", "sub": "cli"}, {"files": new_files})
@@ -231,11 +235,14 @@ def keystore_cases(ctx, rng):
     want = {(a, b): E.derive_key(d1[a], d2[b]) for a, b in ((0, 0), (1, 0), (0, 1))}
     # same key id, different stored values; different styles; repeated parsing in one process
     seq = [(0, 0, 0), (1, 0, 1), (0, 1, 2), (0, 0, 1), (1, 0, 0)]
+    import itertools
+    orders = list(itertools.permutations(range(4)))
     for a, b, style in seq:
         for esc_case in ("esxi", "lower", "upper", "mixed"):
             ctx.case(key=("ks", a, b, style, esc_case), nontrivial=True)
             try:
-                ks = KeyStore.from_text(E.keystore_text(kid, d1[a], d2[b], style=style, esc_case=esc_case))
+                # the name=value pairs of ConfigEncData in any order (they are looked up by name)
+                ks = KeyStore.from_text(E.keystore_text(kid, d1[a], d2[b], style=style, esc_case=esc_case, order=rng.choice(orders)))
             except Exception as e:  # noqa: BLE001
                 ctx.violation({"fail": "keystore-raised", "sub": "keystore", "esc_case": esc_case}, {"a": a, "b": b, "style": style, "error": repr(e)[:200]})
                 continue
